@@ -669,6 +669,22 @@ class Exec:
         return [("next", st, None)]
 
     def stmt_Assign(self, stmt, st, mod):
+        if isinstance(stmt.value, ast.IfExp) and not getattr(stmt, "_no_split", False):
+            # `x = A if c else B`: try the expression form (scalar arms merge into an ite); when an arm is an object, execute it as
+            # `if c: x = A` / `else: x = B` (same semantics, the two arms become two paths)
+            snap = st.clone()
+            try:
+                v = self.eval(stmt.value, st, mod)
+            except Unsupported as e:
+                if "ite of" not in str(e):
+                    raise
+                st.env, st.pc, st.roots, st.trace = snap.env, snap.pc, snap.roots, snap.trace
+                mk = lambda val: ast.copy_location(ast.Assign(targets=stmt.targets, value=val, lineno=stmt.lineno), stmt)  # noqa: E731
+                node = ast.copy_location(ast.If(test=stmt.value.test, body=[mk(stmt.value.body)], orelse=[mk(stmt.value.orelse)]), stmt)
+                return self.stmt_If(node, st, mod)
+            for t in stmt.targets:
+                self.assign(t, v, st, mod)
+            return [("next", st, None)]
         v = self.eval(stmt.value, st, mod)
         for t in stmt.targets:
             self.assign(t, v, st, mod)
@@ -1117,8 +1133,8 @@ class Exec:
         s0 = st
         pre_env = _clone(dict(st.env), {})
         pre = {"pre": _PreEnv(pre_env)}
+        s0.env[kname] = 0  # ghost: number of completed iterations (for `while` loops too)
         if it is not None:
-            s0.env[kname] = 0
             try:
                 bind_target(s0, 0, False)
             except VCError:
@@ -1142,6 +1158,10 @@ class Exec:
                 bind_target(sh, k, False)
             except VCError:
                 pass
+        else:
+            k = z3.Int(uid(kname))
+            sh.env[kname] = k
+            sh.pc.append(k >= 0)
         self._assume_inv(sh, spec, pre)
         dec0 = None
         # 3a. exit path
@@ -1188,8 +1208,8 @@ class Exec:
             self.obls.append(Obl(f"{fq}/inv{ordinal}/body-reachable", list(s_b.pc), None, "cover", self.fn_stack[0][0], line, pathid(s_b)))
             for kind, s2, payload in self.exec_block(stmt.body, s_b, mod):
                 if kind in ("next", "continue"):
+                    s2.env[kname] = s2.env[kname] + 1
                     if it is not None:
-                        s2.env[kname] = s2.env[kname] + 1
                         try:
                             bind_target(s2, s2.env[kname], False)
                         except VCError:
@@ -1512,6 +1532,9 @@ class Exec:
                 return self.compare(ast.Eq() if isinstance(op, ast.Is) else ast.NotEq(), a, b, st, node)
             elif isinstance(a, Builtin) and isinstance(b, Builtin):
                 r = a.name == b.name
+            elif isinstance(a, Opaque) and isinstance(b, Opaque) and "id" in a.attrs and "id" in b.attrs:
+                # abstract references named by an identity (candidate fields): the same object iff the same identity
+                return self.compare(ast.Eq() if isinstance(op, ast.Is) else ast.NotEq(), a.attrs["id"], b.attrs["id"], st, node)
             elif isinstance(b, bool) and (isinstance(a, bool) or (is_z3(a) and z3.is_bool(a))):
                 # `x is True` / `x is False` with x a bool: the two bool singletons are compared by value
                 return self.compare(ast.Eq() if isinstance(op, ast.Is) else ast.NotEq(), a, b, st, node)
